@@ -238,6 +238,34 @@ class _MergeIdiom(Exception):
     pass
 
 
+def _run_merge_interp(ctx, block, env, base, other):
+    """the merge block evaluated by the general interpreter on two summary records (falls back to the small evaluator below)"""
+    from ..rules.interp import Interp, NotPure
+    recs = {base: {"__ref": True}, other: {"__ref": True}}
+    for k, v in env.items():
+        b_, f_ = k.split(".", 1)
+        recs[b_][f_] = v
+
+    def binop(op, a_, b_):
+        if isinstance(a_, (int, float)) and isinstance(b_, (int, float)) and op in ("+", "-", "*"):
+            return a_ + b_ if op == "+" else (a_ - b_ if op == "-" else a_ * b_)
+        raise NotPure("arithmetic")
+    try:
+        it = Interp(ctx.ast, W, extern={"None": None, "binop": binop, "floats": True})
+        b = strip(block)
+        it.block(b, dict(recs), 0) if b.k == "block" else it.ev(b, dict(recs), 0)
+    except NotPure:
+        return _run_merge(block, env)
+    except Exception as e:
+        raise _MergeIdiom(str(e)[:80])
+    out = {}
+    for b_, r in recs.items():
+        for f_, v in r.items():
+            if not f_.startswith("__"):
+                out["%s.%s" % (b_, f_)] = v
+    return out
+
+
 def _run_merge(block, env):
     """execute a merge block (assignments / += on <base>.<field>, if/else on comparisons of such fields) on concrete numbers"""
     def val(e):
@@ -332,7 +360,7 @@ def ob_merge(ctx, res):
                         for f_, v_ in zip(("total_items", "bases_covered", "min_val", "max_val", "sum", "sum_squares"), vals):
                             env["%s.%s" % (b_, f_)] = v_
                     try:
-                        out = _run_merge(sa["body"], env)
+                        out = _run_merge_interp(ctx, sa["body"], env, base, other)
                     except _MergeIdiom as e:
                         bad = "merge block not analysable: %s" % e
                         break
